@@ -29,22 +29,28 @@ type pubEncRes struct {
 }
 
 func kEncPub(alg string, key jwk.Key, pt, label []byte) (r pubEncRes) {
+	k2, kb := privKey(key)
+	p, l := clone(pt), clone(label)
 	defer func() {
-		if p := recover(); p != nil {
-			r = pubEncRes{pan: panStr(p)}
+		if x := recover(); x != nil {
+			r = pubEncRes{pan: panStr(x)}
 		}
 	}()
-	r.ct, r.err = kc.EncryptPublicKey(clone(pt), alg, key, clone(label))
+	r.ct, r.err = kc.EncryptPublicKey(p, alg, k2, l)
+	settle("EncryptPublicKey", alg, rpm("algorithm", alg, "plaintext", pt, "label", label), [][]byte{p, l, kb}, []string{"ciphertext"}, &r.ct)
 	return r
 }
 
 func kDecPriv(alg string, key jwk.Key, ct, label []byte) (r decRes) {
+	k2, kb := privKey(key)
+	c, l := clone(ct), clone(label)
 	defer func() {
-		if p := recover(); p != nil {
-			r = decRes{pan: panStr(p)}
+		if x := recover(); x != nil {
+			r = decRes{pan: panStr(x)}
 		}
 	}()
-	r.pt, r.err = kc.DecryptPrivateKey(clone(ct), alg, key, clone(label))
+	r.pt, r.err = kc.DecryptPrivateKey(c, alg, k2, l)
+	settle("DecryptPrivateKey", alg, rpm("algorithm", alg, "ciphertext", ct, "label", label), [][]byte{c, l, kb}, []string{"plaintext"}, &r.pt)
 	return r
 }
 
@@ -55,12 +61,15 @@ type signRes struct {
 }
 
 func kSign(alg string, key jwk.Key, digest []byte) (r signRes) {
+	k2, kb := privKey(key)
+	d := clone(digest)
 	defer func() {
-		if p := recover(); p != nil {
-			r = signRes{pan: panStr(p)}
+		if x := recover(); x != nil {
+			r = signRes{pan: panStr(x)}
 		}
 	}()
-	r.sig, r.err = kc.SignPrivateKey(clone(digest), alg, key)
+	r.sig, r.err = kc.SignPrivateKey(d, alg, k2)
+	settle("SignPrivateKey", alg, rpm("algorithm", alg, "digest", digest), [][]byte{d, kb}, []string{"signature"}, &r.sig)
 	return r
 }
 
@@ -71,12 +80,15 @@ type verifyRes struct {
 }
 
 func kVerify(alg string, key jwk.Key, digest, sig []byte) (r verifyRes) {
+	k2, kb := privKey(key)
+	d, s := clone(digest), clone(sig)
 	defer func() {
-		if p := recover(); p != nil {
-			r = verifyRes{pan: panStr(p)}
+		if x := recover(); x != nil {
+			r = verifyRes{pan: panStr(x)}
 		}
 	}()
-	r.ok, r.err = kc.VerifyPublicKey(clone(digest), clone(sig), alg, key)
+	r.ok, r.err = kc.VerifyPublicKey(d, s, alg, k2)
+	settle("VerifyPublicKey", alg, nil, [][]byte{d, s, kb}, nil)
 	return r
 }
 
